@@ -322,7 +322,7 @@ Definition ssa_child (c : ccfg) (kc : child_cfg) (parent : json) (observed : opt
             | Some _ =>
                 api (mkRq VPatchJson (ch_res kc) ns (get_name d)
                        (JArr [JObj [("op", JStr "remove");
-                                    ("path", JStr "/metadata/annotations/metacontroller~0k8s~0io~1last-applied-configuration")]]) "" "")
+                                    ("path", JStr "/metadata/annotations/metacontroller.k8s.io~1last-applied-configuration")]]) "" "")
             | None => Ret (ROk JNull)
             end
         | None => Ret (ROk JNull)
